@@ -183,6 +183,20 @@ def cmd_matrix(outfile, stages="chk"):
     return 0
 
 
+def cmd_matrix_md(infile):
+    res = json.load(open(infile))
+    props = ["C%02d" % i for i in range(1, 18)]
+    print("Which quick checks (overflow-checked stage only) catch which seeded change. `C` = caught (exit 1), `i` = inconclusive (exit 3), `-` = silent.")
+    print("Produced by `./seeded.py matrix` at the commit noted in DESIGN.md section 5; checks added later are stronger than what this table shows.\n")
+    print("| change | " + " | ".join(p[1:] for p in props) + " |")
+    print("|---|" + "---|" * len(props))
+    for name in sorted(res):
+        row = res[name]
+        if "error" in row:
+            continue
+        print("| %s | " % name + " | ".join({"CAUGHT": "C", "-": "-", "inconclusive": "i"}.get(row[p]["verdict"], "?") for p in props) + " |")
+
+
 def cmd_table():
     rows = []
     for name in sorted(os.listdir(SEEDED)):
@@ -208,6 +222,8 @@ if __name__ == "__main__":
         sys.exit(0 if r.get("ok") else 1)
     elif len(a) >= 3 and a[1] == "run":
         sys.exit(cmd_run(a[2], a[3:]))
+    elif len(a) >= 3 and a[1] == "matrix-md":
+        cmd_matrix_md(a[2])
     elif len(a) >= 3 and a[1] == "matrix":
         sys.exit(cmd_matrix(a[2]))
     elif len(a) >= 2 and a[1] == "table":
